@@ -167,6 +167,9 @@ fn step_result_is_limit(ev: &Ev) -> bool {
 
 impl Prop for Growth {
     type Case = Case;
+    fn input_bytes<'a>(&self, c: &'a mut Self::Case) -> Option<&'a mut Vec<u8>> {
+        Some(&mut c.input.0)
+    }
     fn strategy(&self, _tier: Tier) -> BoxedStrategy<Case> {
         let per = |f: Format| {
             let input = match f {
